@@ -1,8 +1,10 @@
-(* Extraction of the SIMD interpreter and of the generated programs (ExtrOcamlBasic only). *)
+(* Extraction of the SIMD interpreter, of the checker (for per-function diagnostics) and of the generated
+   programs (ExtrOcamlBasic only). *)
 Require Import ExtrOcamlBasic.
 From Coq Require Import NArith List String.
-From Snap.Simd Require Import SimdDefs SimdSem.
+From Snap.Simd Require Import SimdDefs SimdSem SimdCheck.
 From Snap.Gen Require Import X86Progs.
 Extraction Language OCaml.
 Set Extraction Optimize.
-Extraction "../ocaml/C02simd/c02simd_ext.ml" SimdSem.exec_prog X86Progs.all_gen_progs.
+Extraction "../ocaml/C02simd/c02simd_ext.ml" SimdSem.exec_prog SimdCheck.checker_opt SimdCheck.analyse SimdCheck.rows_of_gen
+  X86Progs.all_gen_progs X86Progs.untranslated_decoders.
